@@ -236,6 +236,7 @@ pub fn c20(tier: Tier) -> i32 {
     fixtures(&ctx, &mut acc);
     // many requests in flight: bursts of 8..64 requests written in one batch, per tool and mixed
     bursts(&ctx, &mut acc, if tier == Tier::Quick { &[8, 16, 32, 64] } else { &[8, 16, 32, 64, 128, 256] });
+    ctx.require(acc.get("fixtures:one-year-reports-compared") > 0, "no one-year report was compared");
     ctx.require(acc.get("sessions-with-pipelined-requests") > 0 && acc.get("fixtures:compared") >= 30, "pipelined sessions and fixture comparisons must be exercised");
     ctx.bound = json!({"request_alphabet": n, "max_sequence_length": k, "patterns": "all 2^(k-1) await/pipeline patterns", "horizon_s": 2});
     ctx.alphabets.push(json!({"requests": alpha.iter().map(|(n, b)| json!({"name": n, "body": b})).collect::<Vec<_>>()}));
@@ -268,6 +269,10 @@ fn fixtures(ctx: &Ctx, acc: &mut Acc) {
         ("generated:dividends-only", "2024-05-01 DIVIDEND VWRL TOTAL 100 USD TAX 5\n2024-08-01 DIVIDEND VWRL TOTAL 30 TAX 0\n".to_string()),
         ("generated:split-only", "2024-05-01 SPLIT VWRL RATIO 2\n".to_string()),
         ("generated:sterling-prices-foreign-fees-and-tax", "2024-01-15 BUY VOD 100 @ 150 GBP FEES 10 USD\n2024-03-01 DIVIDEND VOD TOTAL 40 TAX 4 EUR\n2024-06-20 SELL VOD 50 @ 180 FEES 5 USD\n2024-07-01 CAPRETURN VOD 50 TOTAL 20 FEES 1 EUR\n".to_string()),
+        // disposals in tax years without a configured exemption (2013/14 before the table, 2026/27 after it) next to
+        // disposals in configured years: the one-year reports of the configured years exist, and every disposal they
+        // list must be explainable
+        ("generated:year-filtered:unconfigured-years-beside-configured", "2012-03-01 BUY ACME 100 @ 10\n2013-06-01 SELL ACME 10 @ 12\n2024-03-01 SELL ACME 5 @ 14\n2024-06-20 SELL ACME 20 @ 15\n2025-01-10 BUY ACME 5 @ 9\n2025-06-20 SELL ACME 7 @ 16 FEES 1\n2026-06-01 SELL ACME 3 @ 11\n".to_string()),
         ("generated:day-30-and-later-event", "2023-01-10 BUY ACME 100 @ 10 FEES 1\n2024-02-01 SELL ACME 60 @ 12 FEES 0.5\n2024-03-02 BUY ACME 40 @ 11 FEES 1\n2025-03-01 CAPRETURN ACME 80 TOTAL 200\n2025-06-01 SELL ACME 10 @ 13\n".to_string()),
     ]
     .into_iter()
@@ -287,19 +292,32 @@ fn fixtures(ctx: &Ctx, acc: &mut Acc) {
             }
             let sc = Scratch::new();
             sc.write("in.cgt", text.as_bytes());
-            let cli = run_tool(&["report", "in.cgt", "--format", "json"], &sc, crate::cli::T);
+            let passes: Vec<Option<i32>> = if name.starts_with("generated:year-filtered") { vec![None, Some(2023), Some(2024), Some(2025)] } else { vec![None] };
             let mut m = Mcp::start(&sc);
-            m.send_raw(&mcx::proc::tool_call(&json!(1), "calculate_report", json!({"transactions": text})));
+            for (pass_no, year) in passes.iter().enumerate() {
+            let first_id = (1 + pass_no * 1000).to_string();
+            let cli = match year {
+                None => run_tool(&["report", "in.cgt", "--format", "json"], &sc, crate::cli::T),
+                Some(y) => run_tool(&["report", "in.cgt", "--format", "json", "--year", &y.to_string()], &sc, crate::cli::T),
+            };
+            let args = match year {
+                None => json!({"transactions": text}),
+                Some(y) => json!({"transactions": text, "year": y}),
+            };
+            m.send_raw(&mcx::proc::tool_call(&json!(1 + pass_no * 1000), "calculate_report", args));
+            if year.is_some() {
+                acc.bump("fixtures:one-year-reports-compared");
+            }
             acc.states += 1;
             acc.validated += 1;
             acc.bump("fixtures:compared");
-            let inp = Input::Json(json!({"fixture": name}));
+            let inp = Input::Json(json!({"fixture": name, "year": year}));
             let push = |acc: &mut Acc, clause: &str, detail: String| acc.violation(&ctx.findings, "C20", Violation { clause: clause.into(), input: inp.clone(), detail, context: json!({"profile": "fixtures"}) });
-            if !m.wait_for(&["1".to_string()], Duration::from_secs(20)) {
+            if !m.wait_for(&[first_id.clone()], Duration::from_secs(20)) {
                 push(&mut acc, "request-not-answered-exactly-once", "calculate_report not answered within 20 s".into());
                 return acc;
             }
-            let mcp_rep = tool_text(&m.got["1"][0]).ok().and_then(|s| serde_json::from_str::<Value>(&s).ok());
+            let mcp_rep = tool_text(&m.got[&first_id][0]).ok().and_then(|s| serde_json::from_str::<Value>(&s).ok());
             let cli_rep: Option<Value> = if cli.ok() { serde_json::from_str(&cli.out()).ok() } else { None };
             match (&cli_rep, &mcp_rep) {
                 (Some(c), Some(mv)) => {
@@ -311,7 +329,7 @@ fn fixtures(ctx: &Ctx, acc: &mut Acc) {
                     let mut want = vec![];
                     for y in c["tax_years"].as_array().cloned().unwrap_or_default() {
                         for d in y["disposals"].as_array().cloned().unwrap_or_default() {
-                            let id = json!(100 + ids.len());
+                            let id = json!(100 + pass_no * 1000 + ids.len());
                             m.send_raw(&mcx::proc::tool_call(&id, "explain_matching", json!({"transactions": text, "disposal_date": d["date"], "ticker": d["ticker"].as_str().unwrap_or("").to_lowercase()})));
                             ids.push(id.to_string());
                             want.push(d);
@@ -352,6 +370,7 @@ fn fixtures(ctx: &Ctx, acc: &mut Acc) {
                 }
                 (None, None) => acc.bump("fixtures:both-refuse"),
                 _ => push(&mut acc, "mcp-differs-from-cli", format!("one of CLI/MCP fails and the other does not (cli ok {}, mcp ok {}): {}", cli_rep.is_some(), mcp_rep.is_some(), cli.err().chars().take(200).collect::<String>())),
+            }
             }
             let _ = m.finish();
             acc
